@@ -643,6 +643,7 @@ struct Formatter19
         } else {
             f.kind = "pretty";
             f.a = cfg.pretty_width;
+            pretty = true;
         }
         f.id = 1;
         Node r;
@@ -652,9 +653,17 @@ struct Formatter19
         root.kids.push_back(f);
         root.kids.push_back(r);
     }
+    bool pretty = false; // no message_pattern key / one-line configuration: the default pretty format
     // expected texts, one per candidate timestamp of the call
     bool matches(const Call19 &c, const std::string &observed, bool commit)
     {
+        if (pretty) {
+            // The keys say nothing about the layout of the default format (time, type letter, thread
+            // tag, category alignment): only that the message is there. The line must end with the
+            // message text; that every output carries the same line is checked across outputs.
+            return observed.size() >= c.plain.size()
+                    && observed.compare(observed.size() - c.plain.size(), c.plain.size(), c.plain) == 0;
+        }
         std::vector<long long> cand;
         for (long long w : c.wall) {
             long long ms = w / 1000000;
@@ -1040,6 +1049,13 @@ Verdict judge_c19(const Plan &plan, const sim::Shm *shm, const ChildExit &, cons
                 if (l.cid >= 0 && l.raw.find(calls[l.cid].text) == std::string::npos)
                     fail19(v, "message-altered", "console line for " + mname(calls[l.cid]) + " does not carry the message text verbatim");
     int stray_out = 0, stray_err = 0;
+    // every output of one configuration carries the same formatted text for a message (one formatter
+    // feeds all sinks); the file is added to this comparison below
+    std::map<int, std::set<std::string>> texts;
+    for (auto *ls : { &out_lines, &err_lines })
+        for (auto &l : *ls)
+            if (l.cid >= 0)
+                texts[l.cid].insert(l.plain);
     for (auto &l : out_lines)
         if (l.cid < 0 && !l.plain.empty())
             stray_out++;
@@ -1172,6 +1188,9 @@ Verdict judge_c19(const Plan &plan, const sim::Shm *shm, const ChildExit &, cons
         std::map<int, int> cnt_file;
         check_output(v, fo, lines, calls, cfg, &cnt_file);
         for (auto &l : lines)
+            if (l.cid >= 0)
+                texts[l.cid].insert(l.plain);
+        for (auto &l : lines)
             if (l.cid >= 0 && l.nseq > (cfg.ini ? calls[l.cid].own_seq : 0))
                 fail19(v, "colour-in-file", "the log file line for " + mname(calls[l.cid]) + " contains terminal colour codes");
         // pre-existing content is kept (unless retention removed whole files)
@@ -1262,6 +1281,11 @@ Verdict judge_c19(const Plan &plan, const sim::Shm *shm, const ChildExit &, cons
         v.probes["file_lines"] = (int)lines.size();
     }
 
+    for (auto &kv : texts)
+        if (kv.second.size() > 1 && v.ok)
+            fail19(v, "outputs-differ",
+                   "message " + mname(calls[kv.first]) + " is written differently to different outputs: '"
+                           + clip(*kv.second.begin(), 100) + "' vs '" + clip(*kv.second.rbegin(), 100) + "'");
     int npass = 0, nrej = 0;
     for (auto &kv : calls)
         (kv.second.passes ? npass : nrej)++;
